@@ -148,6 +148,7 @@ structure Inv (inp : Input) (st : St) : Prop where
   marks : ∀ kv ∈ st.marks, ValOK inp st.log kv.2
   just : st.foreign = false → AllJust inp st.log
   off : inp.allowed = false → OnlyRoot inp st.log
+  nfo : inp.allowed = false → st.foreign = false
 
 /-- the log only grows -/
 def Ext (st st' : St) : Prop := ∀ u ∈ st.log, u ∈ st'.log
@@ -169,23 +170,23 @@ theorem Ext.trans {a b c : St} (h1 : Ext a b) (h2 : Ext b c) : Ext a c := fun u 
 @[simp] theorem unvisit_foreign (t : String) (v : Option Val) (st : St) : (unvisit t v st).foreign = st.foreign := rfl
 @[simp] theorem logRead_log (al : Bool) (u : Url) (st : St) : (logRead al u st).log = st.log ++ [u] := rfl
 
-theorem Inv.tick {inp : Input} {st : St} (n : Nat) (h : Inv inp st) : Inv inp (tick n st) := ⟨h.marks, h.just, h.off⟩
-theorem Inv.oof {inp : Input} {st : St} (h : Inv inp st) : Inv inp { st with oof := true } := ⟨h.marks, h.just, h.off⟩
+theorem Inv.tick {inp : Input} {st : St} (n : Nat) (h : Inv inp st) : Inv inp (tick n st) := ⟨h.marks, h.just, h.off, h.nfo⟩
+theorem Inv.oof {inp : Input} {st : St} (h : Inv inp st) : Inv inp { st with oof := true } := ⟨h.marks, h.just, h.off, h.nfo⟩
 theorem Inv.inprog {inp : Input} {st : St} (l : List String) (h : Inv inp st) : Inv inp { st with inprog := l } :=
-  ⟨h.marks, h.just, h.off⟩
+  ⟨h.marks, h.just, h.off, h.nfo⟩
 theorem Inv.docs {inp : Input} {st : St} (l : List Url) (h : Inv inp st) : Inv inp { st with docs := l } :=
-  ⟨h.marks, h.just, h.off⟩
+  ⟨h.marks, h.just, h.off, h.nfo⟩
 theorem Inv.addPend {inp : Input} {st : St} (c : Bool) (t : String) (k : Key) (h : Inv inp st) :
     Inv inp (addPend c t k st) := by
   unfold KinModel.Reads.addPend; split
   · exact h
-  · exact ⟨h.marks, h.just, h.off⟩
+  · exact ⟨h.marks, h.just, h.off, h.nfo⟩
 
 theorem Inv.setMark {inp : Input} {st : St} (c : Bool) (k : Key) (v : Val) (h : Inv inp st)
     (hv : ValOK inp st.log v) : Inv inp (setMark c k v st) := by
   unfold KinModel.Reads.setMark; split
   · exact h
-  · refine ⟨?_, h.just, h.off⟩
+  · refine ⟨?_, h.just, h.off, h.nfo⟩
     intro kv hkv
     rcases List.mem_cons.mp hkv with e | e
     · subst e; exact hv
@@ -193,7 +194,7 @@ theorem Inv.setMark {inp : Input} {st : St} (c : Bool) (k : Key) (v : Val) (h : 
 
 theorem Inv.unvisit {inp : Input} {st : St} (t : String) (v : Option Val) (h : Inv inp st)
     (hv : ∀ x, v = some x → ValOK inp st.log x) : Inv inp (unvisit t v st) := by
-  refine ⟨?_, h.just, h.off⟩
+  refine ⟨?_, h.just, h.off, h.nfo⟩
   intro kv hkv
   cases v with
   | none => exact h.marks kv hkv
@@ -207,8 +208,8 @@ theorem Inv.unvisit {inp : Input} {st : St} (t : String) (v : Option Val) (h : I
 
 theorem Inv.logRead {inp : Input} {st : St} (al : Bool) (u : Url) (h : Inv inp st)
     (hj : st.foreign = false → al = true → Justified inp st.log u)
-    (ho : inp.allowed = false → some u = inp.root) : Inv inp (logRead al u st) := by
-  refine ⟨?_, ?_, ?_⟩
+    (ho : inp.allowed = false → some u = inp.root ∧ al = true) : Inv inp (logRead al u st) := by
+  refine ⟨?_, ?_, ?_, ?_⟩
   · intro kv hkv
     exact (h.marks kv hkv).mono (by intro x hx; simp [hx])
   · intro hf
@@ -218,7 +219,10 @@ theorem Inv.logRead {inp : Input} {st : St} (al : Bool) (u : Url) (h : Inv inp s
     simp only [KinModel.Reads.logRead, List.mem_append, List.mem_singleton] at hx
     rcases hx with hx | hx
     · exact h.off ha x hx
-    · subst hx; exact ho ha
+    · subst hx; exact (ho ha).1
+  · intro ha
+    simp only [KinModel.Reads.logRead, Bool.or_eq_false_iff, Bool.not_eq_false']
+    exact ⟨h.nfo ha, (ho ha).2⟩
 
 /-- the raw re-read of the current document is a read of a loaded location -/
 theorem Inv.reread {inp : Input} {st : St} (p : Url) (h : Inv inp st) (hl : Loaded inp st.log (some p)) :
@@ -229,6 +233,7 @@ theorem Inv.reread {inp : Input} {st : St} (p : Url) (h : Inv inp st) (hl : Load
     · exact Or.inl hl
     · cases hd; exact (h.just hf).mem hu
   · intro ha
+    refine ⟨?_, rfl⟩
     rcases hl with hl | ⟨u, hu, hd⟩
     · exact hl
     · cases hd; exact h.off ha _ hu
@@ -272,7 +277,7 @@ theorem guardExt_some {inp : Input} {cx : Cx} {home : Home} {r : Ref} {u : Url} 
 theorem guarded_read_justified {inp : Input} {st : St} {cx : Cx} {home : Home} {r : Ref} {u : Url} {al : Bool}
     (hg : guardExt inp cx home r = some (u, al)) (hh : Loaded inp st.log home.1)
     (hr : r ∈ refsAt inp home.1) (hf : r.form ≠ Form.internal) :
-    (st.foreign = false → al = true → Justified inp st.log u) ∧ (inp.allowed = false → some u = inp.root) := by
+    (st.foreign = false → al = true → Justified inp st.log u) ∧ (inp.allowed = false → some u = inp.root ∧ al = true) := by
   obtain ⟨ha, hu, hal⟩ := guardExt_some hg
   refine ⟨?_, ?_⟩
   · intro _ h
@@ -337,7 +342,7 @@ def PWalk (inp : Input) (f : Nat) : Prop :=
     PostB inp st (walk inp f cx home ks st)
 def PLoad (inp : Input) (f : Nat) : Prop :=
   ∀ al u st, Inv inp st → (st.foreign = false → al = true → Justified inp st.log u) →
-    (inp.allowed = false → some u = inp.root) →
+    (inp.allowed = false → some u = inp.root ∧ al = true) →
     PostB inp st (loadDoc inp f al u st) ∧ ((loadDoc inp f al u st).2 = true → u ∈ (loadDoc inp f al u st).1.log)
 
 theorem walk_step {inp : Input} {f : Nat} (ihR : PResolve inp f) (ihW : PWalk inp f) : PWalk inp (f + 1) := by
@@ -535,7 +540,7 @@ theorem all_steps (inp : Input) : ∀ f, PResolve inp f ∧ PFrag inp f ∧ PWal
     exact ⟨resolve_step ihF ihW ihL, frag_step ihR ihW, walk_step ihR ihW, load_step ihW⟩
 
 theorem Inv.init (inp : Input) : Inv inp St.init := by
-  refine ⟨?_, fun _ => AllJust.nil inp, ?_⟩
+  refine ⟨?_, fun _ => AllJust.nil inp, ?_, fun _ => rfl⟩
   · intro kv h; simp [St.init] at h
   · intro _ u h; simp [St.init] at h
 
@@ -550,7 +555,7 @@ theorem load_inv (inp : Input) (fuel : Nat) : Inv inp (load inp fuel).1 := by
     · exact Inv.init inp
     · next u hu =>
       have hroot : some u = inp.root := by unfold Input.root; rw [he, hu]
-      exact (hL true u St.init (Inv.init inp) (fun _ _ => Or.inl hroot) (fun _ => hroot)).1.1
+      exact (hL true u St.init (Inv.init inp) (fun _ _ => Or.inl hroot) (fun _ => ⟨hroot, rfl⟩)).1.1
   · -- LoadFromDataWithPath
     next he =>
     split
